@@ -185,7 +185,7 @@ func init() {
 		Level: "model_checking",
 		Rule: "(a) documented shapes: for each of the 70 worked examples of the attachment-point documentation (snapshot of gendst/data/positions.go), every subset of <=2 (quick) / all subsets (thorough) of the example's points x kind {block, line, newline}, " +
 			"placed directly on the documented node's decoration fields of a tree parsed from the comment-free text: the token+comment sequence of the print must equal that of the documentation text with exactly those comments kept (block), " +
-			"or each comment exactly once with the token stream unchanged (line, newline); (b) every node instance of the corpus x every point singly and all points at once (block comments): exactly once, token stream unchanged, " +
+			"or each comment exactly once with the token stream unchanged (line, newline); (b) every node instance of the corpus x every point singly, with two comments, and all points at once (block comments): exactly once, token stream unchanged, " +
 			"Start directly before the node's first token, End directly after its last, interior points inside and in declaration order; (c) every top-level declaration of 21 object-bearing sources replaced by its Clone or removed, restored with Extras: same output as without Extras (each comment once); (d) helper laws for every node type: dstutil.Decorations lists exactly the reflection-derived points in render order, Decorations() aliases the node's storage; " +
 			"state = (example|instance, point set, kind); non-trivial = at least one decoration placed",
 		Assumptions: []string{"the worked examples in decorations-types-generated.go (generated from gendst/data/positions.go, snapshotted) are the documentation of the attachment points", "',' and ';' are ignored when locating comments: go/printer emits them without positions"},
@@ -260,6 +260,12 @@ func runC04(ctx *core.Ctx, unit int) {
 				ctx.CountState(true)
 				ctx.R.Transitions++
 				ctx.Eval(cs, c04Check(cs))
+				if pi >= 0 {
+					cs.Point = pi + 1000 // two comments on this point
+					ctx.CountState(true)
+					ctx.R.Transitions++
+					ctx.Eval(cs, c04Check(cs))
+				}
 			}
 		}
 		return
@@ -521,10 +527,16 @@ func c04Instance(cs c04Case, fail func(string, string, ...interface{}) core.Outc
 	pts := decPoints(n)
 	var labels []string
 	for pi, p := range pts {
-		if cs.Point == -1 || cs.Point == pi {
+		if cs.Point == -1 || cs.Point == pi || cs.Point == pi+1000 {
 			l := fmt.Sprintf("/*P%d:%s*/", pi, p.Name)
 			p.List.Append(l)
 			labels = append(labels, l)
+			if cs.Point == pi+1000 {
+				// a second comment on the same point
+				l2 := fmt.Sprintf("/*Q%d:%s*/", pi, p.Name)
+				p.List.Append(l2)
+				labels = append(labels, l2)
+			}
 		}
 	}
 	var out string
@@ -608,6 +620,9 @@ func c04Instance(cs c04Case, fail func(string, string, ...interface{}) core.Outc
 		l := fmt.Sprintf("/*P%d:%s*/", pi, p.Name)
 		if !isLabel[l] {
 			continue
+		}
+		if l2 := fmt.Sprintf("/*Q%d:%s*/", pi, p.Name); isLabel[l2] && pos[l2] != pos[l] {
+			return fail("instance-two-comments-split:"+tn+"."+p.Name, "%s.%s: two comments of one point are separated by a token\n%s", tn, p.Name, out)
 		}
 		at := pos[l]
 		switch {
